@@ -684,3 +684,31 @@ B('pkgL_b_hook_is_the_real_server', ['C20'], 'R20.h',
 T('pkgL_t_hook_passed_positionally_under_other_name', ['C20'],
   (SV, "        sys.exit(restart_with_reloader(error_func=error_func))\n", "        on_error = error_func\n        sys.exit(restart_with_reloader(on_error))\n"),
   (SV, "                          error_func=serve_error_app)\n", "                          serve_error_app)\n"))
+
+
+# ------------------------------------------------------------------ R20.k: file names are handled by total string operations only
+_RET = "    except:\n        pass\n\n    return ret\n"
+_SORT = "        monitored_files.sort(key=lambda x: len(x))\n"
+B('pkgL_b_files_sorted_by_mtime', ['C20'], 'R20.k', (FL, _SORT, "        monitored_files.sort(key=lambda x: os.path.getmtime(x), reverse=True)\n"))
+B('pkgL_b_files_sorted_by_mtime_reference', ['C20'], 'R20.k', (FL, _SORT, "        monitored_files.sort(key=os.path.getmtime, reverse=True)\n"))
+B('pkgL_b_names_made_relative', ['C20'], 'R20.k',
+  (FL, _RET, "    except:\n        pass\n\n    ret = [os.path.relpath(fn) for fn in ret]\n    return ret\n"))
+B('pkgL_b_hidden_files_by_first_character', ['C20'], 'R20.k',
+  (FL, _RET, "    except:\n        pass\n\n    ret = [fn for fn in ret if os.path.basename(fn)[0] != '.']\n    return ret\n"))
+B('pkgL_b_basename_by_rindex', ['C20'], 'R20.k',
+  (FL, _RET, "    except:\n        pass\n\n    ret = [fn for fn in ret if not fn[fn.rindex(os.sep) + 1:].startswith('.')]\n    return ret\n"))
+B('pkgL_b_containment_by_commonpath_in_public_helper', ['C20'], 'R20.k',
+  (FL, "    ret = [fn for fn in ret if not fn.startswith(main_lib_dir)]\n", "    ret = [fn for fn in ret if not is_inside(fn, main_lib_dir)]\n"),
+  (FL, "def _filter_site_files(paths):\n", "def is_inside(path, directory):\n    return os.path.commonpath([path, directory]) == directory\n\n\n"
+                                           "def _filter_site_files(paths):\n"))
+B('pkgL_b_only_existing_sources_kept', ['C20'], 'R20.k',
+  (FL, _RET, "    except:\n        pass\n\n    kept = []\n    for fn in ret:\n        with open(fn) as source:\n            if source.read(1):\n"
+             "                kept.append(fn)\n    return kept\n"))
+T('pkgL_t_hidden_files_by_basename_prefix', ['C20'],
+  (FL, _RET, "    except:\n        pass\n\n    ret = [fn for fn in ret if not os.path.basename(fn).startswith('.')]\n    return ret\n"))
+T('pkgL_t_hidden_files_by_slice', ['C20'],
+  (FL, _RET, "    except:\n        pass\n\n    ret = [fn for fn in ret if os.path.basename(fn)[:1] != '.']\n    return ret\n"))
+T('pkgL_t_partial_operation_under_catch_all', ['C20'],
+  (FL, _RET, "    except:\n        pass\n\n    try:\n        here = os.getcwd()\n        ret = [fn for fn in ret if os.path.commonpath([fn, here]) != here or True]\n"
+             "    except Exception:\n        pass\n    return ret\n"))
+T('pkgL_t_files_sorted_by_name_and_length', ['C20'], (FL, _SORT, "        monitored_files.sort(key=lambda x: (len(x), x.lower()))\n"))
